@@ -331,7 +331,7 @@ func (c *ShipConnection) ReportConnectionError(err error) {
 		State: model.SmeStateError,
 		Error: err,
 	}
-	c.infoProvider.HandleShipHandshakeStateUpdate(c.remoteSKI, state)
+	c.reportState(state)
 }
 
 const payloadPlaceholder = `{"place":"holder"}`
